@@ -43,6 +43,7 @@ def run_case(c):
     viol = []
     obs = {"sequences": 1}
     kept = []          # (returned array reference, copy at return time, description)
+    last_inverse = None
     cnt = {"image": 0, "inverse": 0, "preimages": 0, "setbounds": 0}
 
     def fresh():
@@ -63,6 +64,9 @@ def run_case(c):
             ch = rng.random()
             if ch < 0.1:
                 x = int(rng.integers(0, 2))
+            elif ch < 0.25 and last_inverse is not None:
+                x = last_inverse
+                obs["image_of_previous_inverse"] = obs.get("image_of_previous_inverse", 0) + 1
             elif ch < 0.3:
                 x = np.float64(rng.random())
             elif ch < 0.4:
@@ -80,9 +84,22 @@ def run_case(c):
         elif u < 0.9:
             y, isint = point_in_box(rng.random() < 0.3)
             how = int(rng.integers(4))
+            if kept and rng.random() < 0.35:
+                # round trip: the argument is an array this object returned earlier (most often the latest one),
+                # passed as the very same object, as a copy, or as a list
+                src = kept[-1] if rng.random() < 0.7 else kept[int(rng.integers(len(kept)))]
+                if np.asarray(src[1]).shape == (N,) and bool(np.all(np.asarray(src[1]) >= np.array(lo, dtype=float))) \
+                        and bool(np.all(np.asarray(src[1]) <= np.array(hi, dtype=float))):
+                    y, isint = np.array(src[1], dtype=float), False
+                    how = int(rng.integers(3))
+                    obs["roundtrip_args"] = obs.get("roundtrip_args", 0) + 1
+                    if how == 0:
+                        how = 9          # the same object
             if isint:
                 arg = y if how % 2 == 0 else np.array(y)
                 obs["integer_typed_args"] = obs.get("integer_typed_args", 0) + 1
+            elif how == 9:
+                arg = src[0]
             elif how == 0:
                 arg = np.array(y, dtype=np.double)
             elif how == 1:
@@ -98,6 +115,7 @@ def run_case(c):
             ref = f.GetInverseImage(snap if not isinstance(snap, np.ndarray) else snap.copy()) if which == "inverse" else \
                 f.GetPreimages(snap if not isinstance(snap, np.ndarray) else snap.copy())
             cnt[which] += 1
+            last_inverse = got
             if not (float(got) == float(ref)):
                 if len(viol) < 5:
                     viol.append({"mech": "inverse-depends-on-history", "op": k, "y": [float(v) for v in y], "got": float(got), "fresh": float(ref),
@@ -108,6 +126,7 @@ def run_case(c):
                     viol.append({"mech": "argument-modified", "op": k, "before": np.asarray(snap).tolist(), "after": np.asarray(arg).tolist()})
         else:
             lo, hi, kind = scenario.gen_box(rng, N)
+            last_inverse = None
             a_lo = np.array(lo, dtype=float) if rng.random() < 0.5 else lo
             a_hi = np.array(hi, dtype=float) if rng.random() < 0.5 else hi
             s_lo, s_hi = np.array(a_lo, copy=True), np.array(a_hi, copy=True)
@@ -131,7 +150,7 @@ def run_case(c):
 
 
 def finalize(obs, tier, stats):
-    for k in ("ops_image", "ops_inverse", "ops_preimages", "ops_setbounds", "integer_typed_args"):
+    for k in ("ops_image", "ops_inverse", "ops_preimages", "ops_setbounds", "integer_typed_args", "roundtrip_args", "image_of_previous_inverse"):
         if not obs.get(k):
             return "operation class %s never exercised" % k, {}
     return None, {}
